@@ -89,7 +89,9 @@ var ErrInjected = errors.New("injected fault")
 // (or returns its first parameter / Null when inner is nil) except at its
 // at-th invocation, where it returns an error or panics.
 type FnFault struct {
-	Kind  string // fn_error | fn_panic | ""
+	Kind  string // fn_error | fn_panic | fn_both | fn_reenter | ""
+	// Reenter (fn_reenter): what the delegate does instead of computing - it calls back into the object that is calling it
+	Reenter func() (*variants.Variant, error)
 	At    int    // 1-based invocation index
 	Msg   int    // which failure text / error type (see FailureText)
 	Calls int
@@ -201,6 +203,9 @@ func (f *FnFault) Delegate(inner functions.FunctionCalculator) functions.Functio
 			f.Fired = true
 			if f.Kind == "fn_panic" {
 				panic(PanicValue(f.Msg))
+			}
+			if f.Kind == "fn_reenter" && f.Reenter != nil {
+				return f.Reenter()
 			}
 			if f.Kind == "fn_both" {
 				// a sloppy delegate: an error together with a non-nil result
